@@ -171,7 +171,7 @@ def save_replay(prop, src, tag):
 def finish(res, spec):
     """Apply floors, match known findings, write evidence, print verdict lines; return exit code."""
     known = load_known()
-    if "requests_monitored_in_clean_state" in res.stats or "requests_monitored_after_known_defect" in res.stats:
+    if not spec.get("no_clean_floor") and ("requests_monitored_in_clean_state" in res.stats or "requests_monitored_after_known_defect" in res.stats):
         spec = dict(spec)
         spec["floors"] = dict(spec.get("floors", {}), requests_monitored_in_clean_state=5000)
     new, kf = [], {}
@@ -274,7 +274,7 @@ MODE_SPECS = {
 }
 
 
-MODE_SPECS["C14"] = dict(policies=[TA, BLN], bias="mix", machines=RM_MACHINES_QUICK, modes=["hostile"], props="C14",
+MODE_SPECS["C14"] = dict(policies=[TA, BLN], bias="mix", machines=RM_MACHINES_QUICK, modes=["hostile"], props="C14", no_clean_floor=True,
     floors={"hostile_CreateContainer": 1000, "hostile_UpdateContainer": 500, "hostile_Synchronize": 300, "hostile_StopPodSandbox": 200, "hostile_RemovePodSandbox": 200, "hostile_refused": 300, "c14_canaries_ok": 500},
     rule="hostile histories: a short benign prefix, then well-formed but hostile NRI requests (known/unknown/duplicate IDs, out-of-order lifecycle, containers of unknown pods, Synchronize with dangling references and duplicates, every interpreted annotation key x hostile values, absent optional sub-messages, zero/negative/huge resource values) through the real handlers under recover(); after a third of them a benign canary lifecycle must succeed; distinct by (policy, handler, refused?, request size class)")
 
@@ -373,6 +373,58 @@ RM_ASSUMPTIONS = [
     "topology comes from generated sysfs trees; monitors take topology from the generating machine model, never from the code under test",
     "state is inspected only between requests",
 ]
+
+# ---------------------------------------------------------------- C15: race detector + linearizability
+
+C15_SPEC = dict(
+    floors={"c15_bursts": 1000, "c15_overlapping_call_pairs": 5000, "c15_linearizable_bursts": 1000, "c15_fetches_checked": 2000, "c15_kubelet_calls": 300},
+    rule="the rm driver built with -race; bursts of 2-6 goroutines calling the real handlers concurrently (RunPodSandbox, CreateContainer, Start/Update/Stop/RemoveContainer, Stop/RemovePodSandbox racing with creates in the same pod, Synchronize, reconfigure) while a fake kubelet pod-resources gRPC server answers with PRNG-chosen delays; oracles: (1) race reports with a repository frame on both stacks, deduplicated by the pair of racing repository functions, (2) porcupine linearizability of the recorded call/return history against a sequential model of cache membership with final cache contents appended as reads, (3) state-invariant monitors (C01-C05/C09 clauses that do not depend on reply order) at quiescence, (4) 125 s watchdog with two goroutine dumps, (5) InsertPod/GetPodResources fetch visibility. distinct = distinct (policy, burst size, completion order) of bursts",
+    assumptions=["a clean -race run says nothing about pairs of accesses that never both executed",
+                 "the order in which concurrent replies reach the runtime is unknown, so runtime-view clauses are not evaluated after bursts"],
+)
+
+
+def check_c15(prop, tier, seed):
+    res = Result(prop, tier, seed)
+    rmbin = build("rm", race=True)
+    build("rm")  # keeps the sysfs catalogue fresh
+    rundir = os.path.join(BUILD, "run", "%s-%d" % (prop, os.getpid()))
+    shutil.rmtree(rundir, ignore_errors=True)
+    machines = ["m04-2s4c2t", "m03-1s2n4c2t", "m06-2s4c2t-iso", "m05-2s2n4c2t-pmem"]
+    hists, steps, nsh = (24, 60, 2) if tier == "quick" else (150, 80, 4)
+    jobs, shard = [], 0
+    for pol in (TA, BLN):
+        for mname in machines:
+            for _ in range(nsh):
+                work = os.path.join(rundir, "r%03d" % shard)
+                out = os.path.join(work, "out.json")
+                cmd = [rmbin, "--mode", "race", "--policy", pol, "--machine", mname, "--roots", os.path.join(BUILD, "sysfs"),
+                       "--seed", str(seed), "--shard", str(shard), "--hists", str(hists), "--steps", str(steps),
+                       "--props", "C15,C14,C01,C02,C03,C04,C05,C09", "--out", out, "--work", work]
+                jobs.append(dict(cmd=cmd, work=work, out=out, name="race/%s/%s/%d" % (pol, mname, shard),
+                                 env={"GORACE": "halt_on_error=0 log_path=%s" % os.path.join(work, "race")}, timeout=3600 if tier == "quick" else 14400))
+                shard += 1
+    jobs = run_jobs(jobs)
+    collect_rm(res, jobs, prop, props=["C15", "C14", "C01", "C02", "C03", "C04", "C05", "C09"])
+    for v in res.viol:
+        v["prop"] = "C15"  # invariants failing after concurrent delivery are C15's "all state invariants hold afterwards"
+    import racelog
+    nblocks, reps, distinct = racelog.collect(os.path.join(rundir, "r*", "race.*"))
+    res.stats["race_report_blocks"] = nblocks
+    res.stats["race_reports_with_repo_frames_on_both_stacks"] = len(reps)
+    res.stats["distinct_racing_function_pairs"] = len(distinct)
+    for site, rs in sorted(distinct.items()):
+        d = os.path.join(VERIF, "replays", prop)
+        os.makedirs(d, exist_ok=True)
+        wf = os.path.join(d, "s%s-race-%s.txt" % (seed, hashlib.sha1(site.encode()).hexdigest()[:10]))
+        open(wf, "w").write("racing functions: %s\nentry points: %s\nseen %d time(s)\n\n%s\n" % (site, rs[0]["entry"], len(rs), rs[0]["text"]))
+        res.viol.append(dict(prop=prop, check="data-race", sig=site, msg="data race between %s (entry points %s; %s; %d report(s))" % (site, rs[0]["entry"], rs[0]["kinds"], len(rs)), replay=wf))
+    res.evaluations = res.stats.get("c15_burst_ops", 0) + res.stats.get("c15_fetches_checked", 0)
+    rc = finish(res, dict(C15_SPEC, level="exploration", no_clean_floor=True))
+    if rc == 0:
+        shutil.rmtree(rundir, ignore_errors=True)
+    return rc
+
 
 # ---------------------------------------------------------------- lib engine (direct API drivers)
 
@@ -553,6 +605,7 @@ for _p in MODE_SPECS:
 for _p in ("C08", "C16", "C19", "C20"):
     CHECKS[_p] = check_lib
 CHECKS["C17"] = check_c17
+CHECKS["C15"] = check_c15
 
 
 def replay(prop, path):
@@ -571,6 +624,7 @@ def main(argv):
     if a.prop == "setup":
         try:
             build("rm")
+            build("rm", race=True)
             build("lib")
             build_gotest("./pkg/agent/", "agent.test")
         except Inconclusive as e:
